@@ -39,6 +39,7 @@ def build(U):
     U.add('use vstd::prelude::*;\nverus! {\n')
     for n in ('BulkStr', 'Array', 'Resp'):
         U.add(broker_common.strip(R.item('enum', n)) + '\n')
+    U.prelude('resp_enc_pure.rs')
     U.prelude('resp_encode_spec.rs')
     lits = {}
     fns = {}
